@@ -794,11 +794,34 @@ func (g *Gen) call(x *ssa.Call) {
 	}
 	con.Used = true
 	var args []Val
-	for _, a := range argVals {
-		args = append(args, g.val(a))
+	for i, a := range argVals {
+		args = append(args, g.argVal(a, con, names, i))
 	}
 	res := g.applyContract(con, names, args, x.Type(), shortKey(con.Key))
 	g.env[x] = &SV{V: res}
+}
+
+// argVal evaluates a call argument. An interior address (&x.f, &a[i]) cannot be represented as a value; it is
+// passed as an opaque reference provided the callee's contract does not write through that parameter.
+func (g *Gen) argVal(a ssa.Value, con *Contract, names []string, i int) Val {
+	if sv, ok := g.env[a]; ok && sv.A != nil {
+		ad := sv.A
+		if !(ad.K == aHeap && ad.Path == "" && len(ad.AIdx) == 0) {
+			name := ""
+			if i < len(names) {
+				name = names[i]
+			}
+			for _, m := range con.Modifies {
+				if strings.HasPrefix(m, name+".") || strings.HasPrefix(m, name+"[") || m == name {
+					oos("interior address passed to %s which modifies through parameter %s", shortKey(con.Key), name)
+				}
+			}
+			t := g.fresh("opaqueaddr", SInt)
+			g.assume(Term{app("<", "0", t.S), SBool})
+			return Val{T: a.Type(), C: []Term{t}}
+		}
+	}
+	return g.val(a)
 }
 
 func (g *Gen) applyContract(con *Contract, names []string, args []Val, resT types.Type, label string) Val {
@@ -965,7 +988,7 @@ func (g *Gen) builtin(x *ssa.Call, b *ssa.Builtin) {
 		g.builtinAppend(x)
 	case "clear":
 		oos("clear builtin")
-	case "print", "println":
+	case "print", "println", "delete":
 	default:
 		if strings.HasPrefix(b.Name(), "ssa:") {
 			g.env[x] = &SV{V: g.zeroVal(x.Type())}
